@@ -279,9 +279,9 @@ func makeIterator(value any) iterable {
 	case reflect.Map:
 		rv := reflect.ValueOf(value)
 		array := make([][]any, rv.Len())
-		for i, k := range values.SortedMapKeys(rv) {
-			v := rv.MapIndex(k)
-			array[i] = []any{k.Interface(), v.Interface()}
+		keys, elems := values.SortedMapEntries(rv)
+		for i, k := range keys {
+			array[i] = []any{k.Interface(), elems[i].Interface()}
 		}
 		return sliceWrapper(reflect.ValueOf(array))
 	default:
